@@ -36,6 +36,14 @@ type Request struct {
 	SepDelayMs int    `json:"sepDelayMs"`
 	DeadlineMs int    `json:"deadlineMs"` // caller's context deadline, relative to the call
 	CancelMs   int    `json:"cancelMs"`   // caller cancels at this offset (0 = never)
+	// StartMs: the request is issued this long after the start of the scenario (the deadline counts from then)
+	StartMs int `json:"startMs,omitempty"`
+	// Advance: just before this request is issued the application draws this many message IDs itself
+	// (the exported Conn.GetMessageID) - 65536 minus a few, so that the connection's 16-bit counter
+	// comes round to the ID of an earlier request, which may still be pending: what a long-lived
+	// connection meets after 65536 messages, brought within reach. (The unchanged library refuses a
+	// request whose ID is pending without a transmission, which the rules allow.)
+	Advance int `json:"advance,omitempty"`
 	// Payload > 0: the request is a POST with a body of this many bytes (else a GET without one)
 	Payload int `json:"payload,omitempty"`
 }
@@ -129,11 +137,17 @@ func Exec(t *testing.T, sc Scenario, r *evid.Run) *evid.Failure {
 		cancels := make([]context.CancelFunc, n)
 		for i := range sc.Reqs {
 			q := sc.Reqs[i]
-			ctx, cancel := context.WithTimeout(context.Background(), time.Duration(q.DeadlineMs)*time.Millisecond)
+			ctx, cancel := context.WithTimeout(context.Background(), time.Duration(q.StartMs+q.DeadlineMs)*time.Millisecond)
 			cancels[i] = cancel
 			wg.Add(1)
 			go func(i int) {
 				defer wg.Done()
+				if q.StartMs > 0 {
+					time.Sleep(time.Duration(q.StartMs) * time.Millisecond)
+				}
+				for k := 0; k < q.Advance; k++ {
+					cli.GetMessageID()
+				}
 				var req *pool.Message
 				var err error
 				if q.Payload > 0 {
@@ -248,7 +262,7 @@ func Exec(t *testing.T, sc Scenario, r *evid.Run) *evid.Failure {
 		// run past every deadline
 		maxDl := 0
 		for _, q := range sc.Reqs {
-			maxDl = max(maxDl, q.DeadlineMs)
+			maxDl = max(maxDl, q.StartMs+q.DeadlineMs)
 		}
 		if d := time.Duration(maxDl+50)*time.Millisecond - time.Since(start); d > 0 {
 			time.Sleep(d)
@@ -299,7 +313,7 @@ func Exec(t *testing.T, sc Scenario, r *evid.Run) *evid.Failure {
 		}
 		o := outs[i]
 		if !o.returned {
-			return evid.Failf("retx/call-did-not-return", sc, "request %d has not returned %d ms after its deadline (%d ms)", i, 50, q.DeadlineMs)
+			return evid.Failf("retx/call-did-not-return", sc, "request %d has not returned %d ms after its deadline (%d ms)", i, 50, q.StartMs+q.DeadlineMs)
 		}
 		if len(copies) == 0 {
 			if o.err == nil {
@@ -355,7 +369,22 @@ func Exec(t *testing.T, sc Scenario, r *evid.Run) *evid.Failure {
 		if resp == nil {
 			continue
 		}
-		dl := time.Duration(q.DeadlineMs) * time.Millisecond
+		if wrapped(sc) {
+			// after a wrap-around a late reset for an earlier request with the same message ID
+			// legitimately ends this one
+			foreign := false
+			for j := range deliveredTo {
+				for _, d := range deliveredTo[j] {
+					if j != i && d.m.Type == peer.RST && d.m.MID == m0.MID && d.t >= t0 && d.t <= o.at {
+						foreign = true
+					}
+				}
+			}
+			if foreign {
+				continue
+			}
+		}
+		dl := time.Duration(q.StartMs+q.DeadlineMs) * time.Millisecond
 		if cancelAt[i] > 0 {
 			dl = min(dl, cancelAt[i])
 		}
@@ -402,7 +431,7 @@ func Exec(t *testing.T, sc Scenario, r *evid.Run) *evid.Failure {
 		return evid.Failf(key, sc, "request %d: the response (%d %q) was delivered at %v, before exhaustion (%v) and before the deadline (%v), but the call failed at %v: %v", i, resp.m.Code, resp.m.Payload, resp.t, exhausted, dl, o.at, o.err)
 	}
 	// weak liveness: total silence, ticks at least every ACK_TIMEOUT/2, MAX_RETRANSMIT >= 1 => a retransmission happens
-	if len(sc.Reqs) == 1 && sc.MaxRetransmit >= 1 && sc.Reqs[0].Reaction == "nothing" && sc.Reqs[0].CancelMs == 0 && len(failedWrites) == 0 {
+	if len(sc.Reqs) == 1 && sc.MaxRetransmit >= 1 && sc.Reqs[0].Reaction == "nothing" && sc.Reqs[0].CancelMs == 0 && sc.Reqs[0].StartMs == 0 && len(failedWrites) == 0 {
 		dense := true
 		prev := time.Duration(0)
 		limit := 2*ackT + ackT/2
@@ -428,6 +457,15 @@ func Exec(t *testing.T, sc Scenario, r *evid.Run) *evid.Failure {
 		}
 	}
 	return nil
+}
+
+func wrapped(sc Scenario) bool {
+	for _, q := range sc.Reqs {
+		if q.Advance > 0 {
+			return true
+		}
+	}
+	return false
 }
 
 func b2i(b bool) int64 {
@@ -465,8 +503,14 @@ func gen(t *rapid.T) Scenario {
 		if q.DeadlineMs < 10 {
 			q.DeadlineMs = 10
 		}
+		if i > 0 && rapid.IntRange(0, 1).Draw(t, "later") == 0 {
+			q.StartMs = rapid.SampledFrom([]int{1, ack / 2, ack + 5, 2*ack + 5}).Draw(t, "start")
+		}
+		if q.StartMs > 0 && rapid.IntRange(0, 2).Draw(t, "wrap") == 0 {
+			q.Advance = 65536 - rapid.IntRange(1, 4).Draw(t, "wrapback")
+		}
 		if rapid.IntRange(0, 5).Draw(t, "cancels") == 0 {
-			q.CancelMs = rapid.IntRange(1, q.DeadlineMs).Draw(t, "cancelAt")
+			q.CancelMs = q.StartMs + rapid.IntRange(1, q.DeadlineMs).Draw(t, "cancelAt")
 		}
 		sc.Reqs = append(sc.Reqs, q)
 	}
@@ -536,6 +580,9 @@ func TestCheck(t *testing.T) {
 				key = string(b)
 			}
 			cls := []string{fmt.Sprintf("retx/max=%d", sc.MaxRetransmit)}
+			if wrapped(sc) {
+				cls = append(cls, "retx/message-id-counter-wrapped-round-to-an-earlier-request")
+			}
 			for _, q := range sc.Reqs {
 				cls = append(cls, "retx/reaction="+q.Reaction)
 			}
@@ -544,7 +591,7 @@ func TestCheck(t *testing.T) {
 		return f
 	})
 	r.Main(evid.Meta{
-		Rule:        udpsrv.Rule + ". Others: ping: Conn.Ping(ctx) / Conn.AsyncPing + its cancel function against a peer that answers the k-th copy with RST or ACK after a delay, or never; same clauses for the copies of the ping (count, spacing, byte identity, none after the pong, the cancellation or the return), Ping succeeds iff a pong was delivered. retx: a client datagram connection in a synctest bubble issuing 1-3 confirmable GETs with generated (ACK_TIMEOUT, MAX_RETRANSMIT 0-5, NSTART 1-3), per-transmission loss, a transmission whose socket write fails (single-request scenarios), peer reaction (piggy-backed, empty ACK then separate CON/NON response, RST, nothing), per-reply loss, reaction delays around ACK_TIMEOUT, caller deadline/cancellation, and a housekeeping tick schedule (around k x ACK_TIMEOUT +-1 ms, unrelated periods, random, dense); oracle over the wire log with exact virtual timestamps: copies <= 1+MAX_RETRANSMIT, k-th copy not before t0 + k x ACK_TIMEOUT, byte-identical, none after ACK/RST delivery, cancellation or return; success only with the peer's own response; a response delivered before exhaustion and deadline must make the call succeed; dense ticks and silence produce a retransmission. Non-trivial = at least one lost transmission or lost reply; distinct by scenario",
+		Rule:        udpsrv.Rule + ". Others: ping: Conn.Ping(ctx) / Conn.AsyncPing + its cancel function against a peer that answers the k-th copy with RST or ACK after a delay, or never; same clauses for the copies of the ping (count, spacing, byte identity, none after the pong, the cancellation or the return), Ping succeeds iff a pong was delivered. retx: a client datagram connection in a synctest bubble issuing 1-3 confirmable GETs or POSTs (together, or one after the other while the earlier ones are still being retransmitted) with generated (ACK_TIMEOUT, MAX_RETRANSMIT 0-5, NSTART 1-3), per-transmission loss, a transmission whose socket write fails (single-request scenarios), peer reaction (piggy-backed, empty ACK then separate CON/NON response, RST, nothing), per-reply loss, reaction delays around ACK_TIMEOUT, in some multi-request scenarios the application draws 65536 minus 1-4 message IDs itself before a later request, so that the connection's counter comes round to the ID of an earlier, possibly still pending request (the wrap-around of a long-lived connection brought within reach), caller deadline/cancellation, and a housekeeping tick schedule (around k x ACK_TIMEOUT +-1 ms, unrelated periods, random, dense); oracle over the wire log with exact virtual timestamps: copies <= 1+MAX_RETRANSMIT, k-th copy not before t0 + k x ACK_TIMEOUT, byte-identical, none after ACK/RST delivery, cancellation or return; success only with the peer's own response; a response delivered before exhaustion and deadline must make the call succeed; dense ticks and silence produce a retransmission. Non-trivial = at least one lost transmission or lost reply; distinct by scenario",
 		Assumptions: []string{"'before exhaustion' is read conservatively: delivered strictly before the first tick that follows transmission number 1+MAX_RETRANSMIT (for MAX_RETRANSMIT = 0: before the first tick) and at least 1 ms before the deadline/cancellation", "nothing is asserted about NSTART"},
 		Floor:       300,
 	}, eng, pingEngine(t, r), udpsrv.Engine(r, []string{"retx", "retx", "reconn"}, 8, 200))
